@@ -25,6 +25,8 @@ CLAIMED = {
          "trusted: sort.Search extern, xxhash determinism, options install 1<=prime<=2^31. Not decided: sharded containers == unsharded (composition with C01/C02/C04 contracts)."),
  "C18": ("proof", "Transact: every normal and panicking path (steps may return nil, an error, or panic with any value including nil) ends with exactly one of commit/rollback after a successful begin, commit iff every step succeeded, no step after the first failure, nil only after commit, never exits by panic; nothing begun for an empty list", "4/C18",
          "trusted: gorm Begin/Commit/Rollback extern contracts (ghost counters, no panic), step contract (any outcome). Not decided: Combine (returns a closure), database behaviour."),
+ "C20": ("proof", "exact-or-error for the UnmarshalJSON of JsInt64, JsUInt64, JsByte (+FromString), JsUnixTime, JsNanoTime, UnixStamp, Duration: if decoding succeeds the token is a quoted string (or, for JsInt64, a bare numeral) whose content is a numeral and the stored value is exactly its value (bytes in 0..255, no wrap); never panics on well-formed tokens", "4/C20",
+         "trusted: strconv/strings/time parsing externs over opaque numeral predicates, well-formed JSON token precondition. Not decided: encode->decode round trip as one lemma per type, Scan/Value pairs, base64 and hex helpers."),
 }
 NOT_YET = {
  "C01": "contracts for semap not written yet (needs the container/list ranked-set model); to be claimed when built",
@@ -35,7 +37,6 @@ NOT_YET = {
  "C15": "mux worker contracts not built yet",
  "C16": "stcp session contracts not built yet (goroutines/network: only thin safety clauses are within reach)",
  "C19": "vcode contracts (string model) not built yet",
- "C20": "tex scalar wrapper contracts (strconv externs) not built yet",
 }
 import os, re
 hooks = subprocess.run(["git", "-C", "/repo", "log", "--format=%h %s"], capture_output=True, text=True).stdout.splitlines()
